@@ -11,11 +11,11 @@ REPO = os.environ.get("VERIF_REPO", "/repo")
 BUILD = os.path.join(VERIF, "build")
 COQ = os.path.join(VERIF, "coq")
 OCAML = os.path.join(VERIF, "ocaml")
-HARNESS = os.path.join(VERIF, "harness", "bin")
+HARNESS = os.environ.get("VERIF_HARNESS_WS", os.path.join(VERIF, "harness", "bin"))
 TARGET = os.environ.get("VERIF_TARGET", os.path.join(BUILD, "target"))
 CACHE = os.path.join(BUILD, "cache")
-REPLAYS = os.path.join(BUILD, "replays")
-EVIDENCE = os.path.join(VERIF, "evidence")
+REPLAYS = os.environ.get("VERIF_REPLAYS", os.path.join(BUILD, "replays"))
+EVIDENCE = os.environ.get("VERIF_EVIDENCE", os.path.join(VERIF, "evidence"))
 NCPU = int(os.environ.get("VERIF_JOBS", "16"))
 
 OFFLINE_ENV = {
